@@ -59,6 +59,7 @@ type provRun struct {
 	opIdx int
 	consecutiveFleetFailures int
 	exited bool
+	deletesSinceRefresh int // acknowledged terminates since the last refresh (the F6 site)
 }
 
 func (p *provRun) viol(prop, rule, sub, site, detail string, hl ...*Call) {
@@ -94,8 +95,8 @@ func RunProvider(t *testing.T, spec ProvSpec, stats *Stats) (res *RunResult) {
 	return res
 }
 
-func RunProviderReplay(t *testing.T, rf *ReplayFile) *RunResult {
-	spec := ProvSpec{Seed: rf.RunSeed, Prop: rf.Property, Replay: rf.Streams, MaxOps: rf.MaxScans}
+func RunProviderReplay(t *testing.T, rf *ReplayFile, verbose bool) *RunResult {
+	spec := ProvSpec{Seed: rf.RunSeed, Prop: rf.Property, Replay: rf.Streams, MaxOps: rf.MaxScans, KeepLog: verbose}
 	if spec.Replay == nil {
 		spec.Replay = map[string][]uint32{}
 	}
@@ -115,6 +116,7 @@ func runProviderInBubble(spec ProvSpec, stats *Stats, res *RunResult) {
 	for _, f := range allFaultKinds {
 		cfg.Faults[f] = true
 	}
+	cfg.Faults[FFewer] = false // an answer without the group leaves provider cache and known-ASG model on different snapshots; the controller-level simulation covers it
 	g := &GroupCfg{Name: "pg", LabelKey: "ng", LabelValue: "v", ASG: "asg-p", NodeCPU: 4000, NodeMem: 16 << 30}
 	pc := spec.Case
 	// ASG shape
@@ -144,11 +146,11 @@ func runProviderInBubble(spec ProvSpec, stats *Stats, res *RunResult) {
 		g.LaunchTemplateID, g.LaunchTemplateVersion = "lt-p", "1"
 		g.Lifecycle = []string{"", "on-demand", "spot"}[s.Intn(3)]
 		g.Overrides = [][]string{nil, {"m5.large"}, {"c5.xlarge", "m5.xlarge"}}[s.Intn(3)]
-		g.FleetTimeout = []string{"", "5s", "30s"}[s.Intn(3)]
+		g.FleetTimeout = []string{"", "4500ms", "30500ms"}[s.Intn(3)]
 		if pc != nil {
 			g.Lifecycle = pc.Lifecycle
 			g.Overrides = [][]string{nil, {"m5.large"}, {"c5.xlarge", "m5.xlarge"}}[pc.Overrides%3]
-			g.FleetTimeout = "10s"
+			g.FleetTimeout = "10500ms"
 		}
 	}
 	g.Tagging = s.Chance(0.3)
@@ -215,16 +217,33 @@ func runProviderInBubble(spec ProvSpec, stats *Stats, res *RunResult) {
 	}
 	for p.opIdx = 0; p.opIdx < nops && len(res.Violations) == 0 && !p.exited; p.opIdx++ {
 		time.Sleep(time.Duration(ops.Intn(30)) * time.Second)
-		switch ops.Pick(2, 5, 5, 1, 2) {
+		// the controller refreshes the provider at the start of every scan; within
+		// a scan it issues at most: [DeleteNodes (force batch)] then one of
+		// {DeleteNodes (grace batch), IncreaseSize}. Histories follow that shape.
+		p.opRefresh()
+		if len(res.Violations) > 0 {
+			break
+		}
+		switch ops.Pick(5, 4, 2, 3, 1, 2) {
 		case 0:
-			p.opRefresh()
-		case 1:
 			p.opIncrease(p.drawDelta(ops))
+		case 1:
+			p.opDelete(p.drawNodeList(ops))
 		case 2:
 			p.opDelete(p.drawNodeList(ops))
+			if len(res.Violations) == 0 {
+				p.st.Probe("two delete batches without a refresh in between")
+				p.opDelete(p.drawNodeList(ops))
+			}
 		case 3:
-			p.opDecrease(-int64(1 + ops.Intn(3)))
+			p.opDelete(p.drawNodeList(ops))
+			if len(res.Violations) == 0 {
+				p.st.Probe("delete then increase without a refresh in between")
+				p.opIncrease(p.drawDelta(ops))
+			}
 		case 4:
+			p.opDecrease(-int64(1 + ops.Intn(3)))
+		case 5:
 			p.opGetInstance(ops)
 		}
 	}
@@ -268,15 +287,28 @@ func (p *provRun) guard(f func() error) (err error, panicked string, exit bool) 
 
 func (p *provRun) known() *KnownASG { return p.w.known[p.g.ASG].clone() }
 
+func (p *provRun) siteAfterRemoval() string {
+	return ifs(p.deletesSinceRefresh > 0, "after-same-scan-removal", "")
+}
+
 func (p *provRun) opRefresh() {
 	p.begin("Refresh")
+	p.deletesSinceRefresh = 0
 	p.w.ctx = "" // a refresh is what feeds the known-ASG model
 	err, pan, _ := p.guard(func() error { return p.cloud.Refresh() })
 	p.w.ctx = p.g.Name
 	if pan != "" {
 		p.viol("C20", "c20-panic", "provider", "Refresh", "Refresh panicked: "+pan)
 	}
-	_ = err
+	if err != nil {
+		// the controller never proceeds on a failed refresh (it rebuilds the provider or stops): refresh again, fault-free
+		p.st.Probe("refresh failed, retried")
+		p.w.ctx = ""
+		p.w.noFaults = true
+		_, _, _ = p.guard(func() error { return p.cloud.Refresh() })
+		p.w.noFaults = false
+		p.w.ctx = p.g.Name
+	}
 	if ng, ok := p.cloud.GetNodeGroup(p.g.ASG); ok {
 		p.ng = ng
 	}
@@ -343,21 +375,21 @@ func (p *provRun) judgeIncrease(d int64, k *KnownASG, err error, exit bool) {
 	if d <= 0 || k.Desired+d > k.Max {
 		st.Probe(ifs(d <= 0, "increase d<=0", "increase over max"))
 		if err == nil {
-			p.viol("C17", "c17-rejected-write", "no-error", "", fmt.Sprintf("IncreaseSize(%d) on desired %d max %d returned no error", d, k.Desired, k.Max))
+			p.viol("C17", "c17-rejected-write", "no-error", p.siteAfterRemoval(), fmt.Sprintf("IncreaseSize(%d) on desired %d max %d returned no error", d, k.Desired, k.Max))
 		}
 		if len(writes) > 0 {
-			p.viol("C17", "c17-rejected-write", "", "", fmt.Sprintf("IncreaseSize(%d) on desired %d max %d must be rejected without any AWS write", d, k.Desired, k.Max), writes...)
+			p.viol("C17", "c17-rejected-write", "", p.siteAfterRemoval(), fmt.Sprintf("IncreaseSize(%d) on desired %d max %d must be rejected without any AWS write", d, k.Desired, k.Max), writes...)
 		}
 		return
 	}
 	if g.LaunchTemplateID == "" {
 		if len(sets) != 1 || len(fleets) != 0 {
-			p.viol("C17", "c17-exact", "calls", "", fmt.Sprintf("IncreaseSize(%d): %d SetDesiredCapacity, %d CreateFleet calls", d, len(sets), len(fleets)), writes...)
+			p.viol("C17", "c17-exact", "calls", p.siteAfterRemoval(), fmt.Sprintf("IncreaseSize(%d): %d SetDesiredCapacity, %d CreateFleet calls", d, len(sets), len(fleets)), writes...)
 			return
 		}
 		c := sets[0]
 		if c.Target != g.ASG || c.Desired != k.Desired+d {
-			p.viol("C17", "c17-exact", "", "", fmt.Sprintf("IncreaseSize(%d) on known desired %d issued SetDesiredCapacity(%s, %d)", d, k.Desired, c.Target, c.Desired), c)
+			p.viol("C17", "c17-exact", "", p.siteAfterRemoval(), fmt.Sprintf("IncreaseSize(%d) on known desired %d issued SetDesiredCapacity(%s, %d)", d, k.Desired, c.Target, c.Desired), c)
 		}
 		if c.Desired < k.Desired {
 			p.viol("C17", "c17-lowered", "", "", fmt.Sprintf("scale-up lowered desired capacity %d -> %d", k.Desired, c.Desired), c)
@@ -406,6 +438,28 @@ func (p *provRun) judgeIncrease(d int64, k *KnownASG, err error, exit bool) {
 	acked := map[string]int{}
 	termd := map[string]int{}
 	for _, c := range attaches {
+		if c.Err == "" {
+			for _, id := range c.IDs {
+				acked[id]++
+			}
+		}
+	}
+	allAttached := true
+	for _, id := range F {
+		if acked[id] == 0 {
+			allAttached = false
+		}
+	}
+	// the provider's consecutive-failure counter (documented: the third one ends the process)
+	if allAttached {
+		p.consecutiveFleetFailures = 0
+	} else {
+		p.consecutiveFleetFailures++
+	}
+	if exit {
+		p.exited = true
+	}
+	for _, c := range attaches {
 		if len(c.IDs) > 20 || len(c.IDs) == 0 {
 			p.viol("C17", "c17-attach-once", "batch", "", fmt.Sprintf("AttachInstances with %d ids", len(c.IDs)), c)
 			return
@@ -413,11 +467,6 @@ func (p *provRun) judgeIncrease(d int64, k *KnownASG, err error, exit bool) {
 		if c.Target != g.ASG {
 			p.viol("C17", "c17-attach-once", "asg", "", "AttachInstances to "+c.Target, c)
 			return
-		}
-		if c.Err == "" {
-			for _, id := range c.IDs {
-				acked[id]++
-			}
 		}
 	}
 	for _, c := range terms {
@@ -431,13 +480,9 @@ func (p *provRun) judgeIncrease(d int64, k *KnownASG, err error, exit bool) {
 	}
 	st.Check("c18", uint64(len(F))<<20|uint64(len(attaches))<<8|uint64(len(terms)))
 	inF := map[string]bool{}
-	allAttached := true
 	for _, id := range F {
 		inF[id] = true
 		a, x := acked[id] > 0, termd[id] > 0
-		if !a {
-			allAttached = false
-		}
 		switch {
 		case a && x:
 			p.viol("C18", "c18-both", "", "", fmt.Sprintf("instance %s both attached (acknowledged) and submitted for termination (fleet of %d)", id, len(F)), f)
@@ -464,7 +509,6 @@ func (p *provRun) judgeIncrease(d int64, k *KnownASG, err error, exit bool) {
 		}
 	}
 	if allAttached {
-		p.consecutiveFleetFailures = 0
 		if err != nil || exit {
 			p.viol("C18", "c18-reported", "false-failure", "", fmt.Sprintf("all %d instances attached yet IncreaseSize returned %v", len(F), err), f)
 		}
@@ -473,13 +517,11 @@ func (p *provRun) judgeIncrease(d int64, k *KnownASG, err error, exit bool) {
 			st.Probe("fleet attached in several batches")
 		}
 	} else {
-		p.consecutiveFleetFailures++
 		st.Probe("fleet failure after acquisition")
 		if len(F) > 1000 {
 			st.Probe("more than 1000 orphans")
 		}
 		if exit {
-			p.exited = true
 			if p.consecutiveFleetFailures >= 3 {
 				st.Probe("third consecutive fleet failure ends the process")
 			} else {
@@ -542,6 +584,13 @@ func (p *provRun) opDelete(nodes []*v1.Node) {
 
 func (p *provRun) judgeDelete(nodes []*v1.Node, k *KnownASG, err error) {
 	gs := p.gs
+	defer func() {
+		for _, c := range gs.Calls {
+			if c.Op == OpTerminateASG && c.Err == "" {
+				p.deletesSinceRefresh++
+			}
+		}
+	}()
 	st := p.st
 	var terms, writes []*Call
 	for _, c := range gs.Calls {
@@ -560,10 +609,10 @@ func (p *provRun) judgeDelete(nodes []*v1.Node, k *KnownASG, err error) {
 	if k.Desired <= k.Min || k.Desired-int64(len(nodes)) < k.Min {
 		st.Probe("delete refused at the ASG minimum")
 		if len(nodes) > 0 && len(terms) > 0 {
-			p.viol("C19", "c19-refuse", "", "", fmt.Sprintf("known desired %d, min %d, %d nodes given: the whole request must be refused, %d terminate call(s) issued", k.Desired, k.Min, len(nodes), len(terms)), terms...)
+			p.viol("C19", "c19-refuse", "", ifs(p.deletesSinceRefresh > 0, "second-batch-in-scan", ""), fmt.Sprintf("known desired %d, min %d, %d nodes given: the whole request must be refused, %d terminate call(s) issued", k.Desired, k.Min, len(nodes), len(terms)), terms...)
 		}
 		if len(nodes) > 0 && err == nil {
-			p.viol("C19", "c19-refuse", "no-error", "", fmt.Sprintf("known desired %d, min %d, %d nodes given: request not refused", k.Desired, k.Min, len(nodes)))
+			p.viol("C19", "c19-refuse", "no-error", ifs(p.deletesSinceRefresh > 0, "second-batch-in-scan", ""), fmt.Sprintf("known desired %d, min %d, %d nodes given: request not refused", k.Desired, k.Min, len(nodes)))
 		}
 		return
 	}
